@@ -504,6 +504,9 @@ static Result execute(const Toks &t) {
     return r;
 }
 
-static void generate(Rng &rng, const Opts &o, std::vector<std::string> &lines) { gen_adapter_ops(rng, o, lines); }
+#ifndef ADAPTERS_FAMILY
+#define ADAPTERS_FAMILY 17
+#endif
+static void generate(Rng &rng, const Opts &o, std::vector<std::string> &lines) { gen_adapter_ops(rng, o, lines, ADAPTERS_FAMILY); }
 
 VH_MAIN(generate, execute)
